@@ -309,6 +309,18 @@ func (c *ManualClock) Advance(d int64) {
 
 var errBoom = errors.New("loader failed")
 
+// boomFor is the failure of a loader: always errBoom (errors.Is), for half of the invocations wrapped together
+// with a context error - a loader that gave up because its context was done has failed like any other.
+func boomFor(x int) error {
+	switch x % 4 {
+	case 1:
+		return fmt.Errorf("%w: %w", errBoom, context.Canceled)
+	case 2:
+		return fmt.Errorf("%w: %w", errBoom, context.DeadlineExceeded)
+	}
+	return errBoom
+}
+
 type loadPlan struct {
 	Out     int   // outcome of a single load / of a bulk load
 	Shape   int   // bulk: 0 full, 1 partial, 2 extra, 3 empty map, 4 nil map, 5 partial with extra keys
@@ -605,7 +617,7 @@ func (e *Env) single(kind, key, old int) (int, error) {
 		return v, nil
 	case OutError:
 		e.add(Event{Kind: EvLoadExit, Sub: kind, Key: key, Val: v, Out: OutError})
-		return v, errBoom
+		return v, boomFor(v)
 	case OutNotFound:
 		e.add(Event{Kind: EvLoadExit, Sub: kind, Key: key, Val: 0, Out: OutNotFound})
 		return 0, otter.ErrNotFound
@@ -661,10 +673,10 @@ func (e *Env) bulk(kind int, keys, olds []int) (map[int]int, error) {
 				cp[k] = v
 			}
 			e.add(Event{Kind: EvLoadExit, Sub: kind, Res: cp, Out: OutError})
-			return res, errBoom
+			return res, boomFor(e.NewValue())
 		}
 		e.add(Event{Kind: EvLoadExit, Sub: kind, Out: OutError})
-		return nil, errBoom
+		return nil, boomFor(e.NewValue())
 	case OutNotFound, OutNotFoundWrapped:
 		e.add(Event{Kind: EvLoadExit, Sub: kind, Out: OutNotFound})
 		return nil, otter.ErrNotFound
